@@ -566,8 +566,9 @@ time.  A link that stays unchanged under a fair schedule is quiet (empty queues,
 `x`'s window exhausted); then `y` owes an acknowledgement whose 15 s timer (`ackTimeoutSecs`, the
 `tick 15; poll y` of the fairness hypothesis; the clock of a fair schedule is unbounded) fires and
 `y`'s pump emits (`quiet_enabled`) — or both windows are exhausted with no acknowledgement travelling,
-which `never_dead` excludes.  A bounded form ("after N rounds") follows from the same measure but is
-not stated; the unbounded form below is the one the property asks for. -/
+which `never_dead` excludes.  A bounded form ("after N rounds", N computed from the state) is NOT
+stated or proved: stage 1 argues by contradiction from a link that never changes, which gives no
+explicit number of rounds; the unbounded form below is the statement `C18_live` asks for. -/
 theorem C18_live_holds : C18_live := by
   intro ra rb ga gb ops f hw hwf hdel htp hfet x k hk
   obtain ⟨hl, hp⟩ := phase_run ra rb ga gb ops hw
